@@ -4,6 +4,7 @@ CONSTANTS
   Depth = 0
   MinDepth = 0
   SynDepth = 2
+  Outer3 <- Contexts
   MaxIn = 3
 INVARIANTS TypeOK FinalOK
 CHECK_DEADLOCK TRUE
